@@ -15,8 +15,8 @@ import LexVerif.Proof.SepStrip5
   as a number is accepted, as the same number, after deleting the separators. `strip_preserves_full` (all formats) is
   refuted by the I+T+C class (`strip_witness_itc`).
 * `position_witness_*` (R2): separators accepted at positions the flags do not enable.
-Not stated here: `insert_preserves` (R3) — it is the converse simulation of `strip_preserves`; the implementation-level
-check `props/C13.py` covers it.
+* `insert_preserves` (R3): the converse for the same class — separators inserted anywhere except directly in front of
+  a sign keep the input accepted as the same number.
 -/
 namespace LexVerif.Props.C13
 open LexVerif LexVerif.Model LexVerif.Spec LexVerif.Proof.Sep
@@ -215,6 +215,32 @@ theorem strip_preserves_full_false : ¬ strip_preserves_full := by
   simp only [Except.ok.injEq, Parsed.number.injEq] at h1
   rw [← h1.1, hm, hm2] at h2
   cases h2
+
+/-! ## 4. Inserting separators (R3) -/
+
+/-- **R3 on the model, class I+L+T+C.** `t` is accepted by the complete parser as a number and `s` arises from `t` by
+inserting separator bytes anywhere except directly (through separators) in front of a sign character — for this
+class that covers every leading / internal / trailing / consecutive position of every component. Then `s` is
+accepted as the same number, hence with the same value. -/
+theorem insert_preserves (c : Cfg) (hA : SkipAll c) (o : POpts) (t s : List Nat) (hst : nonSep c s = t)
+    (hP : NoSepBeforeSign c s) (fv : Bool) (n' : Number) (cnt : Nat) (f : Fmt)
+    (h : parseFloatSyntax c o false t fv = .ok (.number n' cnt)) :
+    ∃ n, parseFloatSyntax c o false s fv = .ok (.number n s.length) ∧ NumRel c n n' ∧
+      numberBits c f n = numberBits c f n' := by
+  subst hst
+  obtain ⟨n, h1, h2⟩ := parseFloatSyntax_insert c hA o s hP fv n' cnt h
+  exact ⟨n, h1, h2, (numberBits_strip c hA f n n' h2).symm⟩
+
+/-- the statement for every format: separators inserted at positions the flags enable (`Enabled` left abstract: any
+predicate on (format, input) that implies the position rules of docs/DigitSeparators.md) -/
+def insert_preserves_full (Enabled : Cfg → List Nat → Prop) : Prop :=
+  ∀ (c : Cfg), c.debug = false → (∀ k, c.skip k ≠ .unreachable) → ∀ (o : POpts) (s : List Nat) (n' : Number) (cnt : Nat),
+    Enabled c s → parseFloatSyntax c o false (nonSep c s) = .ok (.number n' cnt) →
+      ∃ n, parseFloatSyntax c o false s = .ok (.number n s.length) ∧ n.mantissa = n'.mantissa ∧ n.exponent = n'.exponent
+
+/-- non-vacuity: separators inserted into `-12.5e+10` at every kind of position -/
+example : NoSepBeforeSign cIltc [45,95,49,95,50,46,95,53,95,101,43,95,49,95,48,95] :=
+  noSepBeforeSign_of_B _ _ (by decide)
 
 /-! ### separators accepted where the flags do not allow them (R2; reproduce on the implementation) -/
 
